@@ -24,5 +24,37 @@ Conf_State ==
    Clause("DRIFT", "LedgerModelPredictsState", ModelCovers /\ Predicted.code = Code,
           StateDiff(Predicted.st, st') = {},
           [at |-> WhereTx, differs |-> StateDiff(Predicted.st, st')])
-ConformanceStep == Conf_Code /\ Conf_State
+\* ---------------------------------------------------------------- block steps of the staking lifecycle (Staking.tla: BeginS, EndS, CommitS)
+\* Covered: stakes, pending updates and (on evidence blocks) unbonding funds in the base coin, every validator listed in the block's votes,
+\* no vote to be counted at this height, no owner with a stake lock at a payout, fewer than 100 candidates.  Compared: the fields the
+\* lifecycle owns.  (The block-reward rule, gas limits, votes and the order book are other modules' business.)
+StakeFields == {"bal", "cands", "vals", "frozen", "wait", "slashed", "lockUntil"}
+BlockDiff(s, t, fs) == {f \in fs : ~SameField(s, t, f)}
+AllStakesBase(s) == \A p \in DOMAIN s.cands : \A x \in Range(s.cands[p].stakes) \cup Range(s.cands[p].upd) : x.c = Base
+AllFrozenBase(s) == \A f \in Range(s.frozen) : f.c = Base
+SmallCands(s) == Cardinality(DOMAIN s.cands) < 100 /\ \A p \in DOMAIN s.cands : Len(s.cands[p].stakes) < 1000
+BeginCovered == /\ IsKind("BeginBlock") /\ NoPanic /\ "st" \in DOMAIN ev' /\ "begin" \in DOMAIN ev' /\ ~hist.imported /\ ~hist.synced
+                /\ ValNames(st) \subseteq (Range(ev'.begin.absent) \cup Range(ev'.begin.present))
+                /\ (ev'.begin.evidence # <<>> => AllStakesBase(st) /\ AllFrozenBase(st))
+                /\ SmallCands(st)
+PredBegin == BeginS(st, H, Range(ev'.begin.absent), ev'.begin.evidence, Cfg)
+Conf_Begin ==
+   Clause("DRIFT", "StakingModelPredictsBeginBlock", BeginCovered, BlockDiff(PredBegin, st', StakeFields) = {},
+          [at |-> Where, differs |-> BlockDiff(PredBegin, st', StakeFields)])
+NoVotesNow == VotesAt(st.updVotes, H) = <<>> /\ VotesAt(st.commVotes, H) = <<>>
+NoLockedOwner == \A p \in DOMAIN st.cands : \A x \in Range(st.cands[p].stakes) : LockOf(st, x.o) <= H
+EndCovered == /\ IsKind("EndBlock") /\ NoPanic /\ "st" \in DOMAIN ev' /\ ~hist.imported /\ ~hist.synced
+              /\ AllStakesBase(st) /\ SmallCands(st) /\ NoVotesNow /\ st.orders = <<>>
+              /\ (IsPayout => NoLockedOwner)
+KeyChanged == \E p \in DOMAIN st.cands : \E q \in DOMAIN disk.cands : disk.cands[q].id = st.cands[p].id /\ q # p
+PredEnd == EndS(st, H, hist.present, Cfg, hist.unit, hist.cap, KeyChanged)
+Conf_End ==
+   Clause("DRIFT", "StakingModelPredictsEndBlock", EndCovered, BlockDiff(PredEnd, st', StakeFields \cup {"emission"}) = {},
+          [at |-> Where, differs |-> BlockDiff(PredEnd, st', StakeFields \cup {"emission"}),
+           cands |-> [p \in {q \in DOMAIN PredEnd.cands \cap DOMAIN st'.cands : ~CandEq(PredEnd.cands[q], st'.cands[q])} |-> <<PredEnd.cands[p], st'.cands[p]>>]])
+CommitCovered == IsKind("Commit") /\ NoPanic /\ "st" \in DOMAIN ev' /\ ~hist.imported /\ ~hist.synced /\ ~hist.crashed
+Conf_Commit ==
+   Clause("DRIFT", "StakingModelPredictsCommit", CommitCovered, BlockDiff(CommitS(st), st', StakeFields) = {},
+          [at |-> Where, differs |-> BlockDiff(CommitS(st), st', StakeFields)])
+ConformanceStep == Conf_Code /\ Conf_State /\ Conf_Begin /\ Conf_End /\ Conf_Commit
 =============================================================================
